@@ -244,6 +244,8 @@ func (s *Sess) RemovePDR(req *ie.IE) ([]report.USAReport, error) {
 		}
 	}
 	delete(s.PDRIDs, pdrid)
+	// packets buffered for this PDR must not be released under a later PDR that re-uses the id
+	delete(s.q, pdrid)
 	return usars, nil
 }
 
